@@ -46,6 +46,11 @@ Proof.
 Qed.
 
 (* ---------- fuel irrelevance of the reachable-message predicates ---------- *)
+Lemma forallb_ext_in {A} (f g : A -> bool) l : (forall x, In x l -> f x = g x) -> forallb f l = forallb g l.
+Proof.
+  induction l as [|a r IH]; intros H; [reflexivity|]. cbn [forallb].
+  rewrite (H a (or_introl eq_refl)), IH; [reflexivity|]. intros x Hx. apply H. right. exact Hx.
+Qed.
 Lemma all_msgs_fuel sc P : forall f1 f2 ty v, (vdepth v < f1)%nat -> (vdepth v < f2)%nat ->
   all_msgs sc P f1 ty v = all_msgs sc P f2 ty v.
 Proof.
@@ -182,7 +187,7 @@ Proof.
     by (destruct Hc as [Hc|Hc]; rewrite Hc in Hi; exact Hi).
   rewrite forallb_forall in H. apply Forall_forall. intros y Hy. specialize (H y Hy).
   unfold val_init, sub_of in *. destruct (fkind_ fd); try exact I.
-  rewrite <- requireds_fuel; [exact H|]. pose proof (vdepth_list_in y l Hy). lia.
+  rewrite <- (requireds_fuel sc (S (vdepth (GList l)))); [exact H|]. pose proof (vdepth_list_in y l Hy). lia.
 Qed.
 
 Lemma field_init_map_inv sc fd kk vk kvs : fcard_ fd = CMap kk vk ->
@@ -191,7 +196,7 @@ Proof.
   intros Hc Hi. specialize (Hi (S (vdepth (GMap kvs))) ltac:(lia)). unfold field_sub in Hi. rewrite Hc in Hi.
   rewrite forallb_forall in Hi. apply Forall_forall. intros [k y] Hy. specialize (Hi _ Hy). cbv beta iota in Hi.
   cbn [snd]. unfold val_init, sub_of in *. destruct vk; try exact I.
-  rewrite <- requireds_fuel; [exact Hi|]. pose proof (vdepth_map_in k y kvs Hy). lia.
+  rewrite <- (requireds_fuel sc (S (vdepth (GMap kvs)))); [exact Hi|]. pose proof (vdepth_map_in k y kvs Hy). lia.
 Qed.
 
 (* updating the state *)
